@@ -1393,4 +1393,903 @@ theorem SInv.run {s : Server} (hi : SInv s) : ∀ {ops : List Op}, (∀ op ∈ o
     rw [List.foldl_cons]
     exact ih (hi.step (hok op (by simp))) (fun o ho => hok o (by simp [ho]))
 
+/-! ## requests as sequences of changes of the content aggregate -/
+
+theorem Rrdp.run_append (r : Rrdp) (a b : List RrdpOp) : r.run (a ++ b) = (r.run a).run b := by
+  unfold Rrdp.run; rw [List.foldl_append]
+
+theorem update_rrdp_run (s : Server) (rnd : Nat) :
+    ∃ rops : List RrdpOp, (s.update rnd).1.rrdp = s.rrdp.run rops ∧
+      (s.update rnd).1.base = s.base ∧ (s.update rnd).1.cfg = s.cfg := by
+  unfold Server.update
+  split
+  · exact ⟨[], rfl, rfl, rfl⟩
+  · split
+    · exact ⟨[], rfl, rfl, rfl⟩
+    · cases findTruncateAge s.cfg.minNr s.cfg.maxNr s.ages with
+      | none => exact ⟨[], rfl, rfl, rfl⟩
+      | some t => exact ⟨[.update t rnd], rfl, rfl, rfl⟩
+
+theorem deleteFiles_rrdp_run (r : Rrdp) (del : Uri) :
+    ∃ rops : List RrdpOp, r.deleteFiles del = r.run rops := by
+  unfold Rrdp.deleteFiles
+  have gen : ∀ (l : List Handle) (acc : Rrdp), ∃ rops : List RrdpOp,
+      l.foldl (fun acc h =>
+        let w := matchingWithdraws (r.objectsFor h) del
+        if w.isEmpty then acc else acc.stage h w) acc = acc.run rops := by
+    intro l
+    induction l with
+    | nil => intro acc; exact ⟨[], rfl⟩
+    | cons h t ih =>
+      intro acc
+      rw [List.foldl_cons]
+      simp only
+      split
+      · exact ih acc
+      · obtain ⟨rops, hr⟩ := ih (acc.stage h (matchingWithdraws (r.objectsFor h) del))
+        refine ⟨.stage h (matchingWithdraws (r.objectsFor h) del) :: rops, ?_⟩
+        rw [hr]; rfl
+  exact gen r.publishers r
+
+theorem server_step_rrdp_run (s : Server) (op : Op) :
+    ∃ rops : List RrdpOp, (s.step op).rrdp = s.rrdp.run rops := by
+  cases op with
+  | addpub h =>
+    simp only [Server.step, Server.addPublisher]
+    cases publisherBase s.base h with
+    | none => exact ⟨[], rfl⟩
+    | some jail =>
+      simp only
+      split
+      · exact ⟨[], rfl⟩
+      · exact ⟨[.added h], rfl⟩
+  | rmpub h =>
+    have : (s.removePublisher h).1.rrdp = s.rrdp.removePublisher h := by
+      unfold Server.removePublisher; simp only; split <;> rfl
+    simp only [Server.step, this, Rrdp.removePublisher]
+    split
+    · exact ⟨[], rfl⟩
+    · exact ⟨[.stage h (withdrawAll (s.rrdp.objectsFor h))], rfl⟩
+  | publish h d =>
+    simp only [Server.step, Server.publish]
+    cases s.jail? h with
+    | none => exact ⟨[], rfl⟩
+    | some jail =>
+      simp only
+      split
+      · exact ⟨[], rfl⟩
+      · cases verifyDelta (s.rrdp.objectsFor h) jail d with
+        | some e => exact ⟨[], rfl⟩
+        | none => exact ⟨[.stage h d], rfl⟩
+  | update rnd =>
+    obtain ⟨rops, h, _⟩ := update_rrdp_run s rnd
+    exact ⟨rops, h⟩
+  | reset session rnd => exact ⟨[.reset session rnd], rfl⟩
+  | delete del rndOf =>
+    simp only [Server.step, Server.delete]
+    obtain ⟨r1, h1, _, _⟩ := update_rrdp_run s (rndOf (s.rrdp.serial + 1))
+    generalize s.update (rndOf (s.rrdp.serial + 1)) = p1 at h1
+    obtain ⟨s1, ret1⟩ := p1
+    simp only at h1 ⊢
+    split
+    · exact ⟨r1, h1⟩
+    · obtain ⟨r2, h2⟩ := deleteFiles_rrdp_run s1.rrdp del
+      obtain ⟨r3, h3, _, _⟩ := update_rrdp_run { s1 with rrdp := s1.rrdp.deleteFiles del }
+        (rndOf (({ s1 with rrdp := s1.rrdp.deleteFiles del } : Server).rrdp.serial + 1))
+      refine ⟨r1 ++ r2 ++ r3, ?_⟩
+      rw [h3, Rrdp.run_append, Rrdp.run_append, ← h1]
+      show (s1.rrdp.deleteFiles del).run r3 = _
+      rw [h2]
+
+/-! ## the retained deltas -/
+
+/-- The deltas are those of the serials `n, n-1, …` (none for serial 1). -/
+def contigFrom : Nat → List DeltaRec → Prop
+  | _, [] => True
+  | n, d :: ds => d.serial = n ∧ 1 < n ∧ contigFrom (n - 1) ds
+
+theorem contigFrom_take : ∀ (n : Nat) (l : List DeltaRec) (k : Nat),
+    contigFrom n l → contigFrom n (l.take k) := by
+  intro n l
+  induction l generalizing n with
+  | nil => intro k _; simp [contigFrom]
+  | cons d ds ih =>
+    intro k h
+    cases k with
+    | zero => simp [contigFrom]
+    | succ k =>
+      rw [List.take_succ_cons]
+      exact ⟨h.1, h.2.1, ih (n - 1) k h.2.2⟩
+
+/-- A contiguous run ending at the current serial. -/
+def Contig (r : Rrdp) : Prop := 0 < r.serial ∧ contigFrom r.serial r.deltas
+
+theorem Contig.create (session rnd : Nat) : Contig (Rrdp.create session rnd) :=
+  ⟨Nat.one_pos, trivial⟩
+
+theorem Contig.step {r : Rrdp} (h : Contig r) (op : RrdpOp) : Contig (r.step op) := by
+  cases op with
+  | added h' =>
+    simp only [Rrdp.step, Rrdp.publisherAdded]; split <;> exact h
+  | stage h' d => exact h
+  | update t rnd =>
+    refine ⟨Nat.succ_pos _, ?_⟩
+    show contigFrom (r.serial + 1) (List.take _ (_ :: r.deltas.take t))
+    apply contigFrom_take
+    refine ⟨rfl, Nat.succ_lt_succ h.1, ?_⟩
+    rw [Nat.add_sub_cancel]
+    exact contigFrom_take _ _ _ h.2
+  | reset s rnd => exact ⟨Nat.one_pos, trivial⟩
+
+theorem Contig.run {r : Rrdp} (h : Contig r) (ops : List RrdpOp) : Contig (r.run ops) := by
+  induction ops generalizing r with
+  | nil => exact h
+  | cons op t ih => unfold Rrdp.run; rw [List.foldl_cons]; exact ih (h.step op)
+
+/-- Consequences of contiguity: the `i`-th delta is the one of serial `serial - i`, and there
+are fewer deltas than the serial. -/
+theorem contigFrom_get : ∀ (n : Nat) (l : List DeltaRec), contigFrom n l →
+    ∀ i (hi : i < l.length), l[i].serial + i = n ∧ i + 1 < n := by
+  intro n l
+  induction l generalizing n with
+  | nil => intro _ i hi; cases hi
+  | cons d ds ih =>
+    intro h i hi
+    cases i with
+    | zero => exact ⟨h.1, h.2.1⟩
+    | succ i =>
+      have := ih (n - 1) h.2.2 i (Nat.lt_of_succ_lt_succ hi)
+      simp only [List.getElem_cons_succ]
+      omega
+
+/-! ## retention by number -/
+
+theorem truncLoop_le (minNr maxNr : Nat) (hmin : minNr + 1 ≤ maxNr) :
+    ∀ (l : List (Bool × Bool)) (keep t : Nat), keep ≤ maxNr - 1 →
+      (∀ j a, l[j]? = some a → maxNr - 1 ≤ keep + j → a.1 = false) →
+      truncLoop minNr maxNr keep l = some t → t ≤ maxNr - 1 := by
+  intro l
+  induction l with
+  | nil =>
+    intro keep t hk _ h
+    simp only [truncLoop, Option.some.injEq] at h
+    omega
+  | cons a rest ih =>
+    intro keep t hk hy h
+    obtain ⟨young, old⟩ := a
+    simp only [truncLoop] at h
+    have hy0 : maxNr - 1 ≤ keep → young = false := fun hle => hy 0 (young, old) rfl (by omega)
+    have hyrest : ∀ j a, rest[j]? = some a → maxNr - 1 ≤ (keep + 1) + j → a.1 = false := by
+      intro j a hj hle
+      exact hy (j + 1) a (by simpa using hj) (by omega)
+    by_cases hc : (decide (keep < minNr) || young) = true
+    · rw [if_pos hc] at h
+      have hlt : keep < maxNr - 1 := by
+        apply Nat.lt_of_le_of_ne hk
+        intro heq
+        have hyf := hy0 (by omega)
+        simp only [hyf, Bool.or_false, decide_eq_true_eq] at hc
+        omega
+      exact ih (keep + 1) t (by omega) hyrest h
+    · rw [if_neg hc] at h
+      have hmax : (maxNr == 0) = false := by
+        have : maxNr ≠ 0 := by omega
+        simp [this]
+      rw [hmax] at h
+      simp only [Bool.false_eq_true, ↓reduceIte] at h
+      by_cases hb : (keep == maxNr - 1 || old) = true
+      · rw [if_pos hb] at h
+        simp only [Option.some.injEq] at h
+        omega
+      · rw [if_neg hb] at h
+        have hne : keep ≠ maxNr - 1 := by
+          intro heq
+          apply hb
+          simp [heq]
+        exact ih (keep + 1) t (by omega) hyrest h
+
+theorem keepBySize_le (limit : Nat) : ∀ (l : List DeltaRec) (total : Nat),
+    keepBySize limit total l ≤ l.length := by
+  intro l
+  induction l with
+  | nil => intro _; simp [keepBySize]
+  | cons d ds ih =>
+    intro total
+    simp only [keepBySize]
+    split
+    · exact Nat.zero_le _
+    · have := ih (total + d.size)
+      simp only [List.length_cons]
+      omega
+
+/-! ## the client -/
+
+theorem clientApplyElem_ok {o : Objs} {e : Elem} (h : ElemWf o e) :
+    clientApplyElem o e = some (applyElem o e) := by
+  cases e with
+  | publish u c => simp only [ElemWf] at h; simp [clientApplyElem, applyElem, h]
+  | update u hh c => simp only [ElemWf] at h; simp [clientApplyElem, applyElem, h]
+  | withdraw u hh => simp only [ElemWf] at h; simp [clientApplyElem, applyElem, h]
+
+theorem ElemWf_congr {o o' : Objs} {e : Elem} (h : o'.get? (key e.uri) = o.get? (key e.uri)) :
+    ElemWf o' e ↔ ElemWf o e := by
+  cases e <;> simp only [ElemWf, Elem.uri] at h ⊢ <;> rw [h]
+
+/-- A strict client applying elements with pairwise distinct keys, each of which fits the
+objects it starts from, succeeds and ends with the plain application. -/
+theorem clientApply_eq_foldl (l : List Elem) (hnd : KeyNodup l) :
+    ∀ (o : Objs), (∀ e ∈ l, ElemWf o e) → clientApply o l = some (l.foldl applyElem o) := by
+  induction l with
+  | nil => intro o _; rfl
+  | cons a t ih =>
+    intro o hwf
+    have hnd' := List.pairwise_cons.mp hnd
+    simp only [clientApply, clientApplyElem_ok (hwf a (by simp)), List.foldl_cons]
+    apply ih hnd'.2
+    intro e he
+    have hne : key e.uri ≠ key a.uri := fun h => hnd'.1 e he h.symm
+    rw [ElemWf_congr (o := o)]
+    · exact hwf e (by simp [he])
+    · rw [get?_applyElem]; simp [hne]
+
+theorem clientApplyElem_congr {a b : Objs} (hab : ∀ k, a.get? k = b.get? k) (e : Elem) :
+    match clientApplyElem a e, clientApplyElem b e with
+    | some a', some b' => ∀ k, a'.get? k = b'.get? k
+    | none, none => True
+    | _, _ => False := by
+  cases e with
+  | publish u c =>
+    simp only [clientApplyElem, hab (key u)]
+    by_cases hc : (b.get? (key u)).isSome = true
+    · simp [hc]
+    · simp only [hc, Bool.false_eq_true, ↓reduceIte]
+      intro k; rw [Objs.get?_insert, Objs.get?_insert, hab k]
+  | update u h c =>
+    simp only [clientApplyElem, hab (key u)]
+    by_cases hc : (Option.map Content.hash (b.get? (key u)) == some h) = true
+    · simp only [hc, ↓reduceIte]
+      intro k; rw [Objs.get?_insert, Objs.get?_insert, hab k]
+    · simp [hc]
+  | withdraw u h =>
+    simp only [clientApplyElem, hab (key u)]
+    by_cases hc : (Option.map Content.hash (b.get? (key u)) == some h) = true
+    · simp only [hc, ↓reduceIte]
+      intro k; rw [Objs.get?_erase, Objs.get?_erase, hab k]
+    · simp [hc]
+
+theorem clientApply_congr (l : List Elem) : ∀ {a b : Objs}, (∀ k, a.get? k = b.get? k) →
+    match clientApply a l, clientApply b l with
+    | some a', some b' => ∀ k, a'.get? k = b'.get? k
+    | none, none => True
+    | _, _ => False := by
+  induction l with
+  | nil => intro a b hab; exact hab
+  | cons e t ih =>
+    intro a b hab
+    have := clientApplyElem_congr hab e
+    simp only [clientApply]
+    cases ha : clientApplyElem a e <;> cases hb : clientApplyElem b e <;> simp only [ha, hb] at this
+    · trivial
+    · exact ih this
+
+/-! ## the flattened snapshot -/
+
+theorem Objs.get?_append (a b : Objs) (k : Uri) :
+    Objs.get? (a ++ b) k = match a.get? k with | some c => some c | none => b.get? k := by
+  induction a with
+  | nil => rfl
+  | cons p t ih =>
+    rw [List.cons_append, Objs.get?_cons, Objs.get?_cons]
+    by_cases hk : k = p.1
+    · simp [hk]
+    · simp only [hk, ↓reduceIte]; exact ih
+
+theorem flatten_cons (p : Handle × Objs) (t : List (Handle × Objs)) :
+    flatten (p :: t) = p.2 ++ flatten t := by
+  simp [flatten, List.flatMap_cons]
+
+theorem flatten_get?_none {snap : List (Handle × Objs)} {k : Uri}
+    (h : ∀ p ∈ snap, p.2.get? k = none) : (flatten snap).get? k = none := by
+  induction snap with
+  | nil => rfl
+  | cons p t ih =>
+    rw [flatten_cons, Objs.get?_append, h p (by simp)]
+    exact ih (fun q hq => h q (by simp [hq]))
+
+theorem currentOf_cons (p : Handle × Objs) (t : List (Handle × Objs)) (h : Handle) :
+    currentOf (p :: t) h = if h = p.1 then p.2 else currentOf t h := by
+  unfold currentOf
+  rw [hget?_cons]
+  by_cases hh : h = p.1 <;> simp [hh]
+
+/-- If no publisher other than `h` has an object at key `k`, the snapshot has `h`'s. -/
+theorem flatten_get?_owner {snap : List (Handle × Objs)} (hnd : (snap.map (·.1)).Nodup)
+    {h : Handle} {k : Uri} (hoth : ∀ q, q ≠ h → (currentOf snap q).get? k = none) :
+    (flatten snap).get? k = (currentOf snap h).get? k := by
+  induction snap with
+  | nil => rfl
+  | cons p t ih =>
+    rw [List.map_cons, List.nodup_cons] at hnd
+    rw [flatten_cons, Objs.get?_append, currentOf_cons]
+    have htail : ∀ q, q ≠ p.1 → currentOf (p :: t) q = currentOf t q := by
+      intro q hq; rw [currentOf_cons]; simp [hq]
+    by_cases hp : h = p.1
+    · simp only [hp, ↓reduceIte]
+      have : (flatten t).get? k = none := by
+        apply flatten_get?_none
+        intro q hq
+        have hne : q.1 ≠ p.1 := fun e => hnd.1 (e ▸ List.mem_map_of_mem (f := (·.1)) hq)
+        have h1 := hoth q.1 (hp ▸ hne)
+        rw [htail q.1 hne] at h1
+        have : currentOf t q.1 = q.2 := by
+          unfold currentOf
+          rw [hget?_of_mem_nodup hnd.2 (h := q.1) (v := q.2) hq]
+          rfl
+        rw [this] at h1
+        exact h1
+      rw [this]
+      cases p.2.get? k <;> rfl
+    · simp only [hp, ↓reduceIte]
+      have h1 := hoth p.1 (fun e => hp e.symm)
+      rw [currentOf_cons] at h1
+      simp only [↓reduceIte] at h1
+      rw [h1]
+      apply ih hnd.2
+      intro q hq
+      by_cases hqp : q = p.1
+      · subst hqp
+        unfold currentOf
+        rw [hget?_eq_none_of_not_mem hnd.1]
+        rfl
+      · rw [← htail q hqp]; exact hoth q hq
+
+/-! ## an RRDP update seen by a client -/
+
+/-- Publisher `h` has, or has staged a change for, key `k`. -/
+def touches (r : Rrdp) (h : Handle) (k : Uri) : Prop :=
+  (r.current h).get? k ≠ none ∨ ∃ e ∈ r.stagedOf h, key e.uri = k
+
+/-- No object key is held (or staged) by two publishers. -/
+def KeysDisjoint (r : Rrdp) : Prop := ∀ h1 h2 k, h1 ≠ h2 → touches r h1 k → ¬ touches r h2 k
+
+theorem stagedElems_eq (staged : List (Handle × Staged)) :
+    stagedElems staged = Delta.ordered (staged.flatMap (·.2)) := by
+  unfold stagedElems Delta.ordered
+  rw [List.filter_flatMap, List.filter_flatMap, List.filter_flatMap]
+
+theorem mem_allStaged {base : Uri} {r : Rrdp} (hi : RInv base r) {e : Elem} :
+    e ∈ r.staged.flatMap (·.2) ↔ ∃ h, e ∈ r.stagedOf h := by
+  rw [List.mem_flatMap]
+  constructor
+  · rintro ⟨p, hp, he⟩
+    refine ⟨p.1, ?_⟩
+    unfold Rrdp.stagedOf
+    rw [hget?_of_mem_nodup hi.stagedNodup (h := p.1) (v := p.2) hp]
+    exact he
+  · rintro ⟨h, he⟩
+    unfold Rrdp.stagedOf at he
+    cases hg : hget? r.staged h with
+    | none => rw [hg] at he; cases he
+    | some st =>
+      rw [hg] at he
+      exact ⟨(h, st), hget?_some_mem hg, he⟩
+
+theorem objectsFor_get?_none {base : Uri} {r : Rrdp} (hi : RInv base r) {q : Handle} {k : Uri}
+    (hn : ¬ touches r q k) : (r.objectsFor q).get? k = none := by
+  unfold Rrdp.objectsFor
+  rw [get?_objectsFor _ _ (hi.wf q).nodup]
+  unfold viewStaged
+  cases hf : findKey (r.stagedOf q) k with
+  | some e =>
+    obtain ⟨hm, hk⟩ := findKey_some hf
+    exact absurd (Or.inr ⟨e, hm, hk⟩) hn
+  | none =>
+    simp only
+    cases hg : (r.current q).get? k with
+    | none => rfl
+    | some c => exact absurd (Or.inl (by rw [hg]; exact Option.some_ne_none c)) hn
+
+theorem keyNodup_allStaged {base : Uri} {r : Rrdp} (hi : RInv base r) (hd : KeysDisjoint r) :
+    KeyNodup (r.staged.flatMap (·.2)) := by
+  unfold KeyNodup
+  rw [List.pairwise_flatMap]
+  constructor
+  · intro p hp
+    have := (hi.wf p.1).nodup
+    unfold Rrdp.stagedOf at this
+    rw [hget?_of_mem_nodup hi.stagedNodup (h := p.1) (v := p.2) hp] at this
+    exact this
+  · have hnd := hi.stagedNodup
+    rw [List.Nodup, List.pairwise_map] at hnd
+    refine List.Pairwise.imp_of_mem ?_ hnd
+    intro a b ha hb hab x hx y hy heq
+    have hxa : x ∈ r.stagedOf a.1 := by
+      unfold Rrdp.stagedOf
+      rw [hget?_of_mem_nodup hi.stagedNodup (h := a.1) (v := a.2) ha]; exact hx
+    have hyb : y ∈ r.stagedOf b.1 := by
+      unfold Rrdp.stagedOf
+      rw [hget?_of_mem_nodup hi.stagedNodup (h := b.1) (v := b.2) hb]; exact hy
+    exact hd a.1 b.1 (key x.uri) hab (Or.inr ⟨x, hxa, rfl⟩) (Or.inr ⟨y, hyb, heq.symm⟩)
+
+/-- The elements a publisher has staged fit the *flattened* snapshot, not only its own
+objects, when no key is shared. -/
+theorem elemWf_flatten {base : Uri} {r : Rrdp} (hi : RInv base r) (hd : KeysDisjoint r)
+    {h : Handle} {e : Elem} (he : e ∈ r.stagedOf h) : ElemWf (flatten r.snapshot) e := by
+  rw [ElemWf_congr (o := r.current h)]
+  · exact (hi.wf h).wf e he
+  · rw [Rrdp.current_eq]
+    apply flatten_get?_owner hi.snapNodup
+    intro q hq
+    cases hg : (currentOf r.snapshot q).get? (key e.uri) with
+    | none => rfl
+    | some c =>
+      exfalso
+      exact hd q h (key e.uri) hq (Or.inl (by rw [Rrdp.current_eq, hg]; exact Option.some_ne_none c))
+        (Or.inr ⟨e, he, rfl⟩)
+
+/-- The RRDP delta written by an update leads a strict client from the old snapshot to the new
+one. -/
+theorem update_client {base : Uri} {r : Rrdp} (hi : RInv base r) (hd : KeysDisjoint r)
+    (t rnd : Nat) :
+    ∃ post, clientApply (flatten r.snapshot) (stagedElems r.staged) = some post ∧
+      ∀ k, post.get? k = (flatten (r.applyUpdated t rnd).snapshot).get? k := by
+  have hall := keyNodup_allStaged hi hd
+  have hord := keyNodup_ordered hall
+  rw [stagedElems_eq]
+  refine ⟨_, clientApply_eq_foldl _ hord _ ?_, ?_⟩
+  · intro e he
+    obtain ⟨h, heh⟩ := (mem_allStaged hi).mp (mem_ordered.mp he)
+    exact elemWf_flatten hi hd heh
+  · intro k
+    rw [get?_foldl_applyElem _ hord, findKey_ordered hall]
+    have hi' := hi.applyUpdated t rnd
+    have hcur' : ∀ q, currentOf (r.applyUpdated t rnd).snapshot q = r.objectsFor q :=
+      fun q => current_applyUpdated hi.stagedNodup hi.snapNodup t rnd q
+    by_cases hex : ∃ h, touches r h k
+    · obtain ⟨h, hth⟩ := hex
+      have hoth : ∀ q, q ≠ h → ¬ touches r q k := fun q hq hc => hd q h k hq hc hth
+      -- the new snapshot at k is h's
+      rw [flatten_get?_owner hi'.snapNodup (h := h)
+        (fun q hq => by rw [hcur']; exact objectsFor_get?_none hi (hoth q hq)), hcur']
+      unfold Rrdp.objectsFor
+      rw [get?_objectsFor _ _ (hi.wf h).nodup]
+      unfold viewStaged
+      cases hf : findKey (r.stagedOf h) k with
+      | some e =>
+        obtain ⟨hm, hk⟩ := findKey_some hf
+        have := findKey_of_mem hall ((mem_allStaged hi).mpr ⟨h, hm⟩)
+        rw [hk] at this
+        rw [this]
+      | none =>
+        have hnone : findKey (r.staged.flatMap (·.2)) k = none := by
+          apply findKey_eq_none_of_forall
+          intro e he hk
+          obtain ⟨q, hq⟩ := (mem_allStaged hi).mp he
+          by_cases hqh : q = h
+          · subst hqh
+            have := findKey_of_mem (hi.wf q).nodup hq
+            rw [hk, hf] at this
+            cases this
+          · exact hoth q hqh (Or.inr ⟨e, hq, hk⟩)
+        rw [hnone]
+        simp only
+        rw [Rrdp.current_eq]
+        apply flatten_get?_owner hi.snapNodup
+        intro q hq
+        cases hg : (currentOf r.snapshot q).get? k with
+        | none => rfl
+        | some c =>
+          exact absurd (Or.inl (by rw [Rrdp.current_eq, hg]; exact Option.some_ne_none c)) (hoth q hq)
+    · have hno : ∀ q, ¬ touches r q k := fun q hq => hex ⟨q, hq⟩
+      have hnone : findKey (r.staged.flatMap (·.2)) k = none := by
+        apply findKey_eq_none_of_forall
+        intro e he hk
+        obtain ⟨q, hq⟩ := (mem_allStaged hi).mp he
+        exact hno q (Or.inr ⟨e, hq, hk⟩)
+      rw [hnone]
+      simp only
+      have h1 : (flatten r.snapshot).get? k = none := by
+        apply flatten_get?_none
+        intro p hp
+        have : r.current p.1 = p.2 := by
+          unfold Rrdp.current
+          rw [hget?_of_mem_nodup hi.snapNodup (h := p.1) (v := p.2) hp]; rfl
+        rw [← this]
+        cases hg : (r.current p.1).get? k with
+        | none => rfl
+        | some c => exact absurd (Or.inl (by rw [hg]; exact Option.some_ne_none c)) (hno p.1)
+      have h2 : (flatten (r.applyUpdated t rnd).snapshot).get? k = none := by
+        apply flatten_get?_none
+        intro p hp
+        have : currentOf (r.applyUpdated t rnd).snapshot p.1 = p.2 := by
+          unfold currentOf
+          rw [hget?_of_mem_nodup hi'.snapNodup (h := p.1) (v := p.2) hp]; rfl
+        rw [← this, hcur']
+        exact objectsFor_get?_none hi (hno p.1)
+      rw [h1, h2]
+
+/-! ## histories within a session, and what a client holding an earlier snapshot gets -/
+
+/-- One change of the content aggregate that keeps the session: it either leaves serial, deltas
+and the content of the snapshot alone, or it is an RRDP update in a well-formed state in which
+no key is shared between publishers. -/
+inductive Small (base : Uri) : Rrdp → Rrdp → Prop
+  | quiet {r r' : Rrdp} : r'.session = r.session → r'.serial = r.serial → r'.deltas = r.deltas →
+      (∀ k, (flatten r'.snapshot).get? k = (flatten r.snapshot).get? k) → Small base r r'
+  | update {r : Rrdp} (t rnd : Nat) : RInv base r → KeysDisjoint r →
+      Small base r (r.applyUpdated t rnd)
+
+inductive Reach (base : Uri) : Rrdp → Rrdp → Prop
+  | refl (r : Rrdp) : Reach base r r
+  | step {r1 r2 r3 : Rrdp} : Reach base r1 r2 → Small base r2 r3 → Reach base r1 r3
+
+theorem Reach.trans {base : Uri} {a b c : Rrdp} (h1 : Reach base a b) (h2 : Reach base b c) :
+    Reach base a c := by
+  induction h2 with
+  | refl => exact h1
+  | step _ hs ih => exact Reach.step ih hs
+
+theorem catchUp_append (held : Objs) (a b : List (List Elem)) :
+    catchUp held (a ++ b) = match catchUp held a with
+      | some o => catchUp o b
+      | none => none := by
+  induction a generalizing held with
+  | nil => rfl
+  | cons d t ih =>
+    simp only [List.cons_append, catchUp]
+    cases clientApply held d with
+    | none => rfl
+    | some o => exact ih o
+
+theorem take_of_prefix {α} {l1 l2 : List α} (hp : l1 <+: l2) {n : Nat} (hn : n ≤ l1.length) :
+    l1.take n = l2.take n := by
+  obtain ⟨t, rfl⟩ := hp
+  rw [List.take_append_of_le_length hn]
+
+/-- The chain of the `n` newest deltas, oldest first. -/
+def chainOf (r : Rrdp) (n : Nat) : List (List Elem) := ((r.deltas.take n).reverse).map (·.elems)
+
+theorem catch_up_of_reach {base : Uri} {r1 r2 : Rrdp} (h : Reach base r1 r2) :
+    r2.session = r1.session ∧ r1.serial ≤ r2.serial ∧
+    (r2.serial - r1.serial ≤ r2.deltas.length →
+      ∃ res, catchUp (flatten r1.snapshot) (chainOf r2 (r2.serial - r1.serial)) = some res ∧
+        ∀ k, res.get? k = (flatten r2.snapshot).get? k) := by
+  induction h with
+  | refl =>
+    refine ⟨rfl, Nat.le_refl _, fun _ => ⟨flatten r1.snapshot, ?_, fun _ => rfl⟩⟩
+    simp [chainOf, catchUp]
+  | @step r2 r3 hr hs ih =>
+    obtain ⟨hsess, hle, hcatch⟩ := ih
+    cases hs with
+    | quiet h1 h2 h3 h4 =>
+      refine ⟨h1.trans hsess, h2 ▸ hle, ?_⟩
+      intro hn
+      rw [h2, h3] at hn
+      obtain ⟨res, hres, heq⟩ := hcatch hn
+      refine ⟨res, ?_, fun k => (heq k).trans (h4 k).symm⟩
+      unfold chainOf at hres ⊢
+      rw [h2, h3]; exact hres
+    | update t rnd hinv hdis =>
+      refine ⟨hsess, Nat.le_succ_of_le hle, ?_⟩
+      intro hn
+      obtain ⟨new, hnew, hpre⟩ : ∃ new : DeltaRec, new.elems = stagedElems r2.staged ∧
+          (r2.applyUpdated t rnd).deltas <+: new :: r2.deltas :=
+        ⟨⟨r2.serial + 1, rnd, stagedElems r2.staged⟩, rfl,
+          List.IsPrefix.trans (List.take_prefix _ _)
+            ((List.prefix_cons_inj _).mpr (List.take_prefix _ _))⟩
+      have hser : (r2.applyUpdated t rnd).serial = r2.serial + 1 := rfl
+      rw [hser] at hn ⊢
+      have hn2 : r2.serial + 1 - r1.serial = (r2.serial - r1.serial) + 1 := by omega
+      rw [hn2] at hn ⊢
+      have hlen : (r2.applyUpdated t rnd).deltas.length ≤ r2.deltas.length + 1 := by
+        have := List.IsPrefix.length_le hpre
+        simpa using this
+      obtain ⟨res, hres, heq⟩ := hcatch (by omega)
+      obtain ⟨post, hpost, hposteq⟩ := update_client hinv hdis t rnd
+      have hcong := clientApply_congr (stagedElems r2.staged) heq
+      rw [hpost] at hcong
+      cases hc : clientApply res (stagedElems r2.staged) with
+      | none => rw [hc] at hcong; exact absurd hcong (by simp)
+      | some post' =>
+        rw [hc] at hcong
+        refine ⟨post', ?_, fun k => (hcong k).trans (hposteq k)⟩
+        unfold chainOf
+        rw [take_of_prefix hpre hn, List.take_succ_cons, List.reverse_cons, List.map_append,
+          catchUp_append]
+        unfold chainOf at hres
+        rw [hres]
+        simp only [List.map_cons, List.map_nil, catchUp, hnew, hc]
+
+/-! ## keys stay disjoint under updates and withdraw-only staging -/
+
+theorem touches_applyUpdated {base : Uri} {r : Rrdp} (hi : RInv base r) {t rnd : Nat}
+    {h : Handle} {k : Uri} (ht : touches (r.applyUpdated t rnd) h k) : touches r h k := by
+  rcases ht with ht | ⟨e, he, _⟩
+  · rw [current_applyUpdated hi.stagedNodup hi.snapNodup] at ht
+    cases hg : (r.objectsFor h).get? k with
+    | none => exact absurd hg ht
+    | some c =>
+      rcases mem_applyDelta (Objs.get?_some_mem hg) with h1 | ⟨e, he, hk⟩
+      · left
+        rw [(hi.objs h).get?_of_mem h1]
+        exact Option.some_ne_none c
+      · exact Or.inr ⟨e, he, hk.symm⟩
+  · cases he
+
+theorem KeysDisjoint.applyUpdated {base : Uri} {r : Rrdp} (hi : RInv base r)
+    (hd : KeysDisjoint r) (t rnd : Nat) : KeysDisjoint (r.applyUpdated t rnd) :=
+  fun h1 h2 k hne t1 t2 => hd h1 h2 k hne (touches_applyUpdated hi t1) (touches_applyUpdated hi t2)
+
+theorem touches_stage {r : Rrdp} {h : Handle} {d : Delta}
+    (hsub : ∀ e ∈ d, touches r h (key e.uri)) {q : Handle} {k : Uri}
+    (ht : touches (r.stage h d) q k) : touches r q k := by
+  by_cases hq : q = h
+  · subst hq
+    rcases ht with ht | ⟨e, he, hk⟩
+    · exact Or.inl ht
+    · rw [stagedOf_stage] at he
+      simp only [↓reduceIte] at he
+      have := mergeNew_uris (fun u => touches r q (key u))
+        (fun a ha => Or.inr ⟨a, ha, rfl⟩) hsub e he
+      rw [hk] at this
+      exact this
+  · rcases ht with ht | ⟨e, he, hk⟩
+    · exact Or.inl ht
+    · rw [stagedOf_stage] at he
+      simp only [hq, ↓reduceIte] at he
+      exact Or.inr ⟨e, he, hk⟩
+
+theorem KeysDisjoint.stage {r : Rrdp} (hd : KeysDisjoint r) {h : Handle} {d : Delta}
+    (hsub : ∀ e ∈ d, touches r h (key e.uri)) : KeysDisjoint (r.stage h d) :=
+  fun h1 h2 k hne t1 t2 => hd h1 h2 k hne (touches_stage hsub t1) (touches_stage hsub t2)
+
+theorem touches_of_objectsFor {base : Uri} {r : Rrdp} (hi : RInv base r) {h : Handle}
+    {p : Uri × Content} (hp : p ∈ r.objectsFor h) : touches r h p.1 := by
+  apply Classical.byContradiction
+  intro hn
+  have := objectsFor_get?_none hi hn
+  rw [(hi.objectsFor_ok h).get?_of_mem hp] at this
+  cases this
+
+theorem withdraws_touch {base : Uri} {r : Rrdp} (hi : RInv base r) (h : Handle)
+    (f : Uri × Content → Bool) :
+    ∀ e ∈ ((r.objectsFor h).filter f).map (fun p => Elem.withdraw p.1 p.2.hash),
+      touches r h (key e.uri) := by
+  intro e he
+  obtain ⟨p, hp, rfl⟩ := List.mem_map.mp he
+  have hm := (List.mem_filter.mp hp).1
+  simp only [Elem.uri]
+  rw [((hi.objectsFor_ok h).keys p hm).1]
+  exact touches_of_objectsFor hi hm
+
+/-! ## requests of the manager as session histories -/
+
+theorem herase_eq_self {ν} {m : List (Handle × ν)} {h : Handle} (hn : h ∉ m.map (·.1)) :
+    herase m h = m := by
+  unfold herase
+  rw [List.filter_eq_self]
+  intro p hp
+  have : p.1 ≠ h := fun e => hn (e ▸ List.mem_map_of_mem (f := (·.1)) hp)
+  simp [this]
+
+theorem flatten_publisherAdded (r : Rrdp) (h : Handle) :
+    flatten (r.publisherAdded h).snapshot = flatten r.snapshot := by
+  unfold Rrdp.publisherAdded
+  cases hs : hget? r.snapshot h with
+  | some o => simp
+  | none =>
+    simp only [Option.isSome_none, Bool.false_eq_true, ↓reduceIte]
+    unfold hset
+    rw [flatten_cons, herase_eq_self (hget?_none_not_mem hs)]
+    rfl
+
+theorem deleteFiles_quiet {base : Uri} {r : Rrdp} (hi : RInv base r) (hd : KeysDisjoint r)
+    (del : Uri) :
+    KeysDisjoint (r.deleteFiles del) ∧ (r.deleteFiles del).session = r.session ∧
+    (r.deleteFiles del).serial = r.serial ∧ (r.deleteFiles del).deltas = r.deltas ∧
+    (r.deleteFiles del).snapshot = r.snapshot := by
+  unfold Rrdp.deleteFiles
+  have gen : ∀ (l : List Handle), l.Nodup → ∀ (acc : Rrdp), RInv base acc → KeysDisjoint acc →
+      (∀ h ∈ l, acc.objectsFor h = r.objectsFor h) →
+      let res := l.foldl (fun acc h =>
+        let w := matchingWithdraws (r.objectsFor h) del
+        if w.isEmpty then acc else acc.stage h w) acc
+      KeysDisjoint res ∧ res.session = acc.session ∧ res.serial = acc.serial ∧
+        res.deltas = acc.deltas ∧ res.snapshot = acc.snapshot := by
+    intro l
+    induction l with
+    | nil => intro _ acc _ hk _; exact ⟨hk, rfl, rfl, rfl, rfl⟩
+    | cons h t ih =>
+      intro hl acc ha hk hobj
+      rw [List.nodup_cons] at hl
+      simp only [List.foldl_cons]
+      by_cases hw : (matchingWithdraws (r.objectsFor h) del).isEmpty = true
+      · simp only [hw, ↓reduceIte]
+        exact ih hl.2 acc ha hk (fun q hq => hobj q (by simp [hq]))
+      · simp only [hw, Bool.false_eq_true, ↓reduceIte]
+        have hst : RInv base (acc.stage h (matchingWithdraws (r.objectsFor h) del)) := by
+          rw [← hobj h (by simp)]
+          exact ha.stage_withdraws h (fun p => matchesDel del p.1)
+        have hks : KeysDisjoint (acc.stage h (matchingWithdraws (r.objectsFor h) del)) := by
+          apply hk.stage
+          rw [← hobj h (by simp)]
+          exact withdraws_touch ha h (fun p => matchesDel del p.1)
+        have := ih hl.2 _ hst hks (fun q hq => by
+          have hne : q ≠ h := fun e => hl.1 (e ▸ hq)
+          rw [objectsFor_stage_ne _ _ _ _ hne]
+          exact hobj q (by simp [hq]))
+        exact this
+  exact gen r.publishers hi.publishers_nodup r hi hd (fun _ _ => rfl)
+
+theorem update_reach {s : Server} (hi : SInv s) (hd : KeysDisjoint s.rrdp) (rnd : Nat)
+    (b : Uri) (hb : s.base = b) :
+    Reach b s.rrdp (s.update rnd).1.rrdp ∧ KeysDisjoint (s.update rnd).1.rrdp ∧
+    (s.update rnd).1.base = b := by
+  subst hb
+  unfold Server.update
+  split
+  · exact ⟨Reach.refl _, hd, rfl⟩
+  · split
+    · exact ⟨Reach.refl _, hd, rfl⟩
+    · cases findTruncateAge s.cfg.minNr s.cfg.maxNr s.ages with
+      | none => exact ⟨Reach.refl _, hd, rfl⟩
+      | some t =>
+        exact ⟨Reach.step (Reach.refl _) (Small.update t rnd hi.r hd),
+          hd.applyUpdated hi.r t rnd, rfl⟩
+
+def Op.isReset : Op → Bool
+  | .reset _ _ => true
+  | _ => false
+
+/-- Every request other than a session reset is a history within the session, provided no key
+is shared between publishers when it starts. -/
+theorem server_step_reach {s : Server} (hi : SInv s) (hd : KeysDisjoint s.rrdp) {op : Op}
+    (hnr : op.isReset = false) : Reach s.base s.rrdp (s.step op).rrdp := by
+  have quiet_stage : ∀ h d, Small s.base s.rrdp (s.rrdp.stage h d) :=
+    fun h d => Small.quiet rfl rfl rfl (fun _ => rfl)
+  cases op with
+  | addpub h =>
+    simp only [Server.step, Server.addPublisher]
+    cases publisherBase s.base h with
+    | none => exact Reach.refl _
+    | some jail =>
+      simp only
+      split
+      · exact Reach.refl _
+      · refine Reach.step (Reach.refl _) (Small.quiet ?_ ?_ ?_ ?_)
+        · show (s.rrdp.publisherAdded h).session = _
+          unfold Rrdp.publisherAdded; split <;> rfl
+        · show (s.rrdp.publisherAdded h).serial = _
+          unfold Rrdp.publisherAdded; split <;> rfl
+        · show (s.rrdp.publisherAdded h).deltas = _
+          unfold Rrdp.publisherAdded; split <;> rfl
+        · intro k
+          show (flatten (s.rrdp.publisherAdded h).snapshot).get? k = _
+          rw [flatten_publisherAdded]
+  | rmpub h =>
+    have : (s.removePublisher h).1.rrdp = s.rrdp.removePublisher h := by
+      unfold Server.removePublisher; simp only; split <;> rfl
+    simp only [Server.step, this, Rrdp.removePublisher]
+    split
+    · exact Reach.refl _
+    · exact Reach.step (Reach.refl _) (quiet_stage _ _)
+  | publish h d =>
+    simp only [Server.step, Server.publish]
+    cases s.jail? h with
+    | none => exact Reach.refl _
+    | some jail =>
+      simp only
+      split
+      · exact Reach.refl _
+      · cases verifyDelta (s.rrdp.objectsFor h) jail d with
+        | some e => exact Reach.refl _
+        | none => exact Reach.step (Reach.refl _) (quiet_stage _ _)
+  | update rnd => exact (update_reach hi hd rnd s.base rfl).1
+  | reset session rnd => simp [Op.isReset] at hnr
+  | delete del rndOf =>
+    simp only [Server.step, Server.delete]
+    have h1 := update_reach hi hd (rndOf (s.rrdp.serial + 1)) s.base rfl
+    have hi1 := hi.update (rndOf (s.rrdp.serial + 1))
+    generalize s.update (rndOf (s.rrdp.serial + 1)) = p1 at h1 hi1
+    obtain ⟨s1, ret1⟩ := p1
+    simp only at h1 hi1 ⊢
+    obtain ⟨hr1, hk1, hb1⟩ := h1
+    split
+    · exact hr1
+    · obtain ⟨hk2, q1, q2, q3, q4⟩ := deleteFiles_quiet hi1.r hk1 del
+      have hi2 : SInv { s1 with rrdp := s1.rrdp.deleteFiles del } :=
+        ⟨hi1.r.deleteFiles del, hi1.access, hi1.accessNodup⟩
+      have h3 := (update_reach hi2 hk2
+        (rndOf (({ s1 with rrdp := s1.rrdp.deleteFiles del } : Server).rrdp.serial + 1))
+        s.base hb1).1
+      have hstep2 : Reach s.base s.rrdp (s1.rrdp.deleteFiles del) :=
+        Reach.step hr1 (Small.quiet q1 q2 q3 (fun _ => by rw [q4]))
+      exact Reach.trans hstep2 h3
+
+/-- The keys of different publishers are disjoint when the jails of the publishers that have
+content are. -/
+theorem keysDisjoint_of_jails {base : Uri} {r : Rrdp} (hi : RInv base r)
+    (hj : ∀ h1 h2 j1 j2, h1 ≠ h2 → publisherBase base h1 = some j1 →
+      publisherBase base h2 = some j2 → ¬ ∃ u, inJail j1 u = true ∧ inJail j2 u = true) :
+    KeysDisjoint r := by
+  have inj : ∀ h k, touches r h k → ∃ j, publisherBase base h = some j ∧ inJail j k = true := by
+    intro h k ht
+    have hja := hi.jailed h
+    unfold JailedAt at hja
+    cases hb : publisherBase base h with
+    | none =>
+      simp only [hb] at hja
+      rcases ht with ht | ⟨e, he, _⟩
+      · rw [hja.1] at ht; exact absurd rfl ht
+      · rw [hja.2] at he; cases he
+    | some j =>
+      simp only [hb] at hja
+      refine ⟨j, rfl, ?_⟩
+      rcases ht with ht | ⟨e, he, hk⟩
+      · cases hg : (r.current h).get? k with
+        | none => exact absurd hg ht
+        | some c => exact hja.1 _ (Objs.get?_some_mem hg)
+      · rw [← hk, inJail_key j (hi.canon h e he)]
+        exact hja.2 e he
+  intro h1 h2 k hne t1 t2
+  obtain ⟨j1, hb1, hin1⟩ := inj h1 k t1
+  obtain ⟨j2, hb2, hin2⟩ := inj h2 k t2
+  exact hj h1 h2 j1 j2 hne hb1 hb2 ⟨k, hin1, hin2⟩
+
+theorem update_base (s : Server) (rnd : Nat) : (s.update rnd).1.base = s.base := by
+  unfold Server.update
+  split
+  · rfl
+  · split
+    · rfl
+    · cases findTruncateAge s.cfg.minNr s.cfg.maxNr s.ages <;> rfl
+
+theorem Server.step_base (s : Server) (op : Op) : (s.step op).base = s.base := by
+  cases op with
+  | addpub h =>
+    simp only [Server.step, Server.addPublisher]
+    cases publisherBase s.base h with
+    | none => rfl
+    | some jail => simp only; split <;> rfl
+  | rmpub h => simp only [Server.step, Server.removePublisher]; split <;> rfl
+  | publish h d =>
+    simp only [Server.step, Server.publish]
+    cases s.jail? h with
+    | none => rfl
+    | some jail =>
+      simp only
+      split
+      · rfl
+      · cases verifyDelta (s.rrdp.objectsFor h) jail d <;> rfl
+  | update rnd => exact update_base s rnd
+  | reset session rnd => rfl
+  | delete del rndOf =>
+    simp only [Server.step, Server.delete]
+    have h1 := update_base s (rndOf (s.rrdp.serial + 1))
+    generalize s.update (rndOf (s.rrdp.serial + 1)) = p1 at h1
+    obtain ⟨s1, ret1⟩ := p1
+    simp only at h1 ⊢
+    split
+    · exact h1
+    · rw [update_base]; exact h1
+
+theorem run_reach : ∀ (ops : List Op) (s : Server), SInv s →
+    (∀ op ∈ ops, OpOk op ∧ op.isReset = false) →
+    (∀ n, KeysDisjoint (s.run (ops.take n)).rrdp) →
+    Reach s.base s.rrdp (s.run ops).rrdp := by
+  intro ops
+  induction ops with
+  | nil => intro s _ _ _; exact Reach.refl _
+  | cons op t ih =>
+    intro s hi hok hdis
+    have h0 : KeysDisjoint s.rrdp := by simpa [Server.run] using hdis 0
+    have hstep := server_step_reach hi h0 (hok op (by simp)).2
+    have hi' := hi.step (hok op (by simp)).1
+    have hrest := ih (s.step op) hi' (fun o ho => hok o (by simp [ho]))
+      (fun n => by simpa [Server.run] using hdis (n + 1))
+    rw [Server.step_base] at hrest
+    have : (s.run (op :: t)) = (s.step op).run t := by simp [Server.run]
+    rw [this]
+    exact Reach.trans hstep hrest
+
 end KM.Pubd
